@@ -19,7 +19,7 @@ static void p_free(const Args &a) {
     ascon_state_t *st = st_of(a);
     ascon_free(st);
     Ev ev("perm.free"); ev.n("obj", a.num("obj"));
-    if (a.num("dump_raw")) ev.b("raw", (const uint8_t *)st, sizeof(ascon_state_t));
+    if (a.num("dump_raw")) ev.n("wipe", a.num("wipe")).b("raw", (const uint8_t *)st, sizeof(ascon_state_t));
     ev.emit();
     obj_del((int)a.num("obj"));
 }
